@@ -508,6 +508,29 @@ def run_case(c):
                       '%s: %s escaped: %s' % (what, type(e).__name__, e), one)
         return res
     ok = True
+    # the results are keyed by row identifier: annotating the table from a mapping that lists them in another order gives the same table
+    if len(rows) >= 2:
+        import collections
+        for label, order in (('reversed', list(reversed(list(bs.keys())))), ('rotated', list(bs.keys())[1:] + list(bs.keys())[:1])):
+            bt2 = ui.read_table(wb, 'Beads', 'ID')
+            try:
+                with warnings.catch_warnings():
+                    warnings.simplefilter('ignore')
+                    ui.add_beads_stats(bt2, collections.OrderedDict((k_, bs[k_]) for k_ in order), outs)
+            except Exception as e:
+                res.violation('beads:stats-other-order-raises:%s' % type(e).__name__, '%s: add_beads_stats with the results listed in %s order raised %s: %s' % (what, label, type(e).__name__, e), one)
+                ok = False
+                break
+            for col in ('Analysis Notes', 'Number of Events', 'Acquisition Time (s)'):
+                a_, b_ = bt[col].tolist(), bt2[col].tolist()
+                if not all(x == y or (x != x and y != y) for x, y in zip(a_, b_)):
+                    res.violation('beads:stats-depend-on-mapping-order', '%s: column %r is %r when the results mapping lists the rows in %s order, %r in table order' % (what, col, b_, label, a_), one)
+                    ok = False
+                    break
+            if not ok:
+                break
+    if not ok:
+        return res
     # the short form (full_output=False) must report every row as well
     try:
         np.random.seed(1)
